@@ -15,6 +15,9 @@ type SrcScript struct {
 	ErrAt  int    // index of the Read call that fails; -1 = never
 	Err    error  // the error returned at ErrAt
 	EOFMix bool   // reader: the final data read returns (n, io.EOF) instead of (n, nil) followed by (0, io.EOF)
+	// ErrWithData: reader: the failing Read hands out the next bytes together
+	// with the error (n > 0, err), which io.Reader permits
+	ErrWithData bool
 }
 
 // SrcStats observes a source.
@@ -124,15 +127,21 @@ func (r *ReaderSource) Read(p []byte) (int, error) {
 	}
 	n := r.St.Reads
 	r.St.Reads++
-	if r.script.ErrAt >= 0 && n == r.script.ErrAt {
+	failing := r.script.ErrAt >= 0 && n == r.script.ErrAt
+	if failing {
 		r.St.ErrFired = true
-		return 0, r.script.Err
+		if !r.script.ErrWithData {
+			return 0, r.script.Err
+		}
 	}
 	for r.i < len(r.chunks) && r.off >= len(r.chunks[r.i]) && len(r.chunks[r.i]) > 0 {
 		r.i++
 		r.off = 0
 	}
 	if r.i >= len(r.chunks) {
+		if failing {
+			return 0, r.script.Err
+		}
 		return 0, io.EOF
 	}
 	ch := r.chunks[r.i]
@@ -140,8 +149,8 @@ func (r *ReaderSource) Read(p []byte) (int, error) {
 		// zero-length read without error
 		r.i++
 		r.off = 0
-		if len(p) == 0 {
-			return 0, nil
+		if failing {
+			return 0, r.script.Err
 		}
 		return 0, nil
 	}
@@ -152,6 +161,9 @@ func (r *ReaderSource) Read(p []byte) (int, error) {
 	if r.off >= len(ch) {
 		r.i++
 		r.off = 0
+	}
+	if failing {
+		return k, r.script.Err
 	}
 	if last && r.script.EOFMix && k > 0 {
 		return k, io.EOF
